@@ -37,6 +37,8 @@ pub fn justification(kind: &str) -> &'static str {
         "e1-floatlit" => "same rule; a floating point literal is f32 or f64 (language reference, Floating Point Numbers) and neither is admitted at this position",
         "e2-drop-arg" | "e2-dup-arg" | "e2-add-arg" => "rule 'wrong argument count': the callee's declared parameter list has a different length",
         "e3-undeclared" => "rule 'unknown ... name': the new identifier is declared nowhere in the script or runtime",
+        "e3-type-path-suffix" => "rule 'unknown ... name': a type (a type parameter, a primitive, a record or enum) has no members that could be named in a type path; the appended segments are declared nowhere",
+        k if k.starts_with("n1-never") => "rule 'an ... argument, field, ... return or assigned value whose type cannot equal the expected one': the never type `!` is uninhabited (language reference, Never Type: it cannot be constructed), so a position whose type is `!`, or has `!` as a type argument or field type, accepts no value; the unchanged expression there produces a value (of a type that is not `!`)",
         "e3-out-of-scope" => "rule 'unknown or out-of-scope name': the name is declared by a `let`, a `for`, a pattern binder, a parameter or a block-level import whose scope (language reference, Local Variables: from the declaration to the end of the block that contains it; Imports: the block that contains it) does not include the point of the inserted use, and no other declaration of that name is visible there",
         "e4-drop-field" => "rule 'missing ... record field': the record type of the literal requires the dropped field",
         "e4-dup-field" | "e4-dup-field-decl" => "rule 'duplicate ... record field'",
@@ -141,6 +143,8 @@ struct Gen<'a> {
     multi: HashSet<String>,
     global_names: HashSet<String>,
     fnk: FnK,
+    /// type-path suffix edits (in a bulk family only in its first seed: the type names are the same in all)
+    suffixes: bool,
 }
 
 pub struct Opts {
@@ -166,7 +170,7 @@ fn lit_of(t: &T) -> Option<String> {
 }
 
 pub fn edits(files: &[SrcFile], parsed: &Parsed, an: &Analysis, opts: &Opts) -> Vec<Edit> {
-    let mut g = Gen { files, an, file: 0, out: vec![], cands: candidates(), multi: HashSet::new(), global_names: HashSet::new(), fnk: FnK::Test };
+    let mut g = Gen { files, an, file: 0, out: vec![], cands: candidates(), multi: HashSet::new(), global_names: HashSet::new(), fnk: FnK::Test, suffixes: opts.e8_names };
     // names visible without qualification in each file: its own items, its
     // top-level imports, the module names, context variables and runtime constants
     let mut per_file: Vec<HashSet<String>> = vec![];
@@ -212,6 +216,9 @@ pub fn edits(files: &[SrcFile], parsed: &Parsed, an: &Analysis, opts: &Opts) -> 
             }
             g.item(it, items, parsed, opts);
         }
+    }
+    if opts.only_fn.is_none() {
+        g.never_edits(parsed);
     }
     // the same text can arise from two operators (e.g. the last argument
     // duplicated = an argument added): keep the first
@@ -357,6 +364,7 @@ impl<'a> Gen<'a> {
     }
     fn push(&mut self, kind: &'static str, detail: String, splices: Vec<(usize, usize, String)>) {
         let file = self.file;
+        let detail = if self.fnk == FnK::Fn(T::Never) && !kind.starts_with("n1-never") { format!("{detail} [inside a function declared `-> !`]") } else { detail };
         self.out.push(Edit { kind, detail, splices: splices.into_iter().map(|(s, e, text)| Splice { file, s, e, text }).collect() });
     }
     fn put(&self, r: Role, inner: &str) -> String {
@@ -526,6 +534,9 @@ impl<'a> Gen<'a> {
             TyEx::Path(segs, args, _) => {
                 let last = segs.last().unwrap();
                 self.push("e3-undeclared", format!("type name `{}` -> `Zzt`", last.name), vec![(last.sp.s, last.sp.e, "Zzt".into())]);
+                for suffix in if self.suffixes { &[".x", ".x.y"][..] } else { &[][..] } {
+                    self.push("e3-type-path-suffix", format!("type path `{}` -> `{}{suffix}`", last.name, last.name), vec![(last.sp.e, last.sp.e, suffix.to_string())]);
+                }
                 for a in args {
                     self.ty_names(a);
                 }
@@ -649,6 +660,228 @@ impl<'a> Gen<'a> {
         }
         for t in types {
             self.push("e8-type-assign", format!("`{t} = 1`"), vec![(at, at, format!(" {t} = 1;"))]);
+        }
+    }
+
+    // ------------------------------------------------------------ n1: the never type
+
+    /// Every written type of the seed (let / const annotation, parameter,
+    /// return type, record field, enum payload) replaced by `!`, and every type
+    /// nested in it (type argument, `T?`, anonymous record field) replaced by
+    /// `!`. The mutant is generated only where a value certainly flows into the
+    /// changed position: `top` = the expression there does not diverge,
+    /// `nested` = its own type is known and therefore is not an instance with `!`.
+    fn never_edits(&mut self, parsed: &Parsed) {
+        // all calls and record literals of the seed
+        let mut nodes: Vec<(usize, &Ex)> = vec![];
+        fn all<'x>(e: &'x Ex, f: usize, out: &mut Vec<(usize, &'x Ex)>) {
+            out.push((f, e));
+            let (es, bs) = kids(e);
+            for c in es {
+                all(c, f, out);
+            }
+            for b in bs {
+                all_b(b, f, out);
+            }
+        }
+        fn all_b<'x>(b: &'x Blk, f: usize, out: &mut Vec<(usize, &'x Ex)>) {
+            for s in &b.stmts {
+                match s {
+                    St::Let(_, _, x, _) | St::Expr(x, _) => all(x, f, out),
+                }
+            }
+            if let Some(t) = &b.tail {
+                all(t, f, out);
+            }
+        }
+        for (fi, items) in parsed.files.iter().enumerate() {
+            for it in items {
+                match it {
+                    Item::Fn(f) => all_b(&f.body, fi, &mut nodes),
+                    Item::Test(_, b, _) => all_b(b, fi, &mut nodes),
+                    Item::Const(c) => all(&c.init, fi, &mut nodes),
+                    _ => {}
+                }
+            }
+        }
+        fn informative(c: &Cl) -> bool {
+            match c {
+                Cl::Exact(t) => *t != T::Never,
+                Cl::OptOf(c) | Cl::ListOf(c) => informative(c),
+                _ => false,
+            }
+        }
+        let an = self.an;
+        let flows = |xs: &[&Ex]| -> (bool, bool) {
+            let top = xs.iter().any(|x| !diverges_expr(x));
+            let nested = xs.iter().any(|x| !diverges_expr(x) && an.info.get(&x.id).is_some_and(|i| informative(&i.selfty)));
+            (top, nested)
+        };
+        let saved_fnk = std::mem::replace(&mut self.fnk, FnK::Test);
+        for (fi, items) in parsed.files.iter().enumerate() {
+            self.file = fi;
+            for it in items {
+                match it {
+                    Item::Fn(f) => {
+                        for (i, (pn, t)) in f.params.iter().enumerate() {
+                            let args: Vec<&Ex> = nodes
+                                .iter()
+                                .filter_map(|(_, e)| match &e.k {
+                                    EK::Call(Callee::Path(segs), args, _) if segs.last().unwrap().name == f.name.name && args.len() == f.params.len() => args.get(i),
+                                    _ => None,
+                                })
+                                .collect();
+                            let (top, nested) = flows(&args);
+                            self.never_site("n1-never-param", &format!("parameter `{}` of `{}`", pn.name, f.name.name), t, top, nested);
+                        }
+                        if let Some(t) = &f.ret {
+                            // every value the function can return
+                            let mut vals: Vec<&Ex> = vec![];
+                            let mut own: Vec<(usize, &Ex)> = vec![];
+                            all_b(&f.body, fi, &mut own);
+                            for (_, e) in &own {
+                                if let EK::Ret(RetKind::Return, Some(x)) = &e.k {
+                                    vals.push(x);
+                                }
+                            }
+                            if let Some(tail) = &f.body.tail {
+                                vals.push(tail);
+                            }
+                            let (mut top, nested) = flows(&vals);
+                            // falling through the end of the body returns `()`
+                            top |= f.body.tail.is_none() && !diverges_block(&f.body);
+                            if matches!(t, TyEx::Never(_)) {
+                                // a seed function that is declared `-> !` and diverges
+                                let b = f.body.sp;
+                                self.push("n1-never-fallthrough", format!("the body of `{}` (declared `-> !`) falls through", f.name.name), vec![(b.s, b.e, "{ }".into())]);
+                                for v in ["1i32", "true", "return 1i32;"] {
+                                    self.push("n1-never-returns-value", format!("the body of `{}` (declared `-> !`) returns `{v}`", f.name.name), vec![(b.s, b.e, format!("{{ {v} }}"))]);
+                                }
+                            } else {
+                                self.never_site("n1-never-return", &format!("return type of `{}`", f.name.name), t, top, nested);
+                            }
+                        }
+                        let mut lets: Vec<(usize, &Ex)> = vec![];
+                        all_b(&f.body, fi, &mut lets);
+                        self.never_lets(&f.body, &flows);
+                    }
+                    Item::Test(_, b, _) => self.never_lets(b, &flows),
+                    Item::Const(c) => {
+                        let (top, nested) = flows(&[&c.init]);
+                        self.never_site("n1-never-const", &format!("type of the constant `{}`", c.name.name), &c.ty, top, nested);
+                    }
+                    Item::Rec(r) => {
+                        let key = format!("{}::{}", self.files[fi].module, r.name.name);
+                        for (fname, t) in &r.fields {
+                            let vals: Vec<&Ex> = nodes
+                                .iter()
+                                .filter_map(|(_, e)| match &e.k {
+                                    EK::Rec(Some(p), fs, _) if p.last().unwrap().name == r.name.name => fs.iter().find(|(n, _)| n.name == fname.name).map(|(_, x)| x),
+                                    EK::Rec(None, fs, _) if matches!(an.info.get(&e.id).and_then(|i| i.req.exact()), Some(T::App(k, _)) if *k == key) => {
+                                        fs.iter().find(|(n, _)| n.name == fname.name).map(|(_, x)| x)
+                                    }
+                                    _ => None,
+                                })
+                                .collect();
+                            let (top, nested) = flows(&vals);
+                            self.never_site("n1-never-field", &format!("field `{}` of `{}`", fname.name, r.name.name), t, top, nested);
+                        }
+                    }
+                    Item::Enum(en) => {
+                        for (v, tys, _) in &en.variants {
+                            for (k, t) in tys.iter().enumerate() {
+                                let vals: Vec<&Ex> = nodes
+                                    .iter()
+                                    .filter_map(|(_, e)| match &e.k {
+                                        EK::Call(Callee::Path(segs), args, _)
+                                            if segs.len() >= 2 && segs.last().unwrap().name == v.name && segs[segs.len() - 2].name == en.name.name && args.len() == tys.len() =>
+                                        {
+                                            args.get(k)
+                                        }
+                                        _ => None,
+                                    })
+                                    .collect();
+                                let (top, nested) = flows(&vals);
+                                self.never_site("n1-never-payload", &format!("payload {k} of `{}.{}`", en.name.name, v.name), t, top, nested);
+                            }
+                        }
+                    }
+                    Item::Import(..) => {}
+                }
+            }
+        }
+        self.fnk = saved_fnk;
+    }
+
+    fn never_lets(&mut self, b: &Blk, flows: &dyn Fn(&[&Ex]) -> (bool, bool)) {
+        let mut todo: Vec<&Blk> = vec![b];
+        while let Some(b) = todo.pop() {
+            let mut exprs: Vec<&Ex> = vec![];
+            for s in &b.stmts {
+                match s {
+                    St::Let(n, t, x, _) => {
+                        if let Some(t) = t {
+                            let (top, nested) = flows(&[x]);
+                            self.never_site("n1-never-let", &format!("annotation of `let {}`", n.name), t, top, nested);
+                        }
+                        exprs.push(x);
+                    }
+                    St::Expr(x, _) => exprs.push(x),
+                }
+            }
+            if let Some(t) = &b.tail {
+                exprs.push(t);
+            }
+            while let Some(e) = exprs.pop() {
+                let (es, bs) = kids(e);
+                exprs.extend(es);
+                todo.extend(bs);
+            }
+        }
+    }
+
+    /// the written type `t` replaced by `!` (if `top`), every type nested in it replaced by `!` (if `nested`)
+    fn never_site(&mut self, kind: &'static str, what: &str, t: &TyEx, top: bool, nested: bool) {
+        if matches!(t, TyEx::Never(_)) {
+            return;
+        }
+        if top {
+            let sp = t.sp();
+            self.push(kind, format!("{what}: `{}` -> `!`", self.text(sp)), vec![(sp.s, sp.e, "!".into())]);
+        }
+        if nested {
+            let mut inner: Vec<&TyEx> = vec![];
+            fn subs<'x>(t: &'x TyEx, out: &mut Vec<&'x TyEx>) {
+                match t {
+                    TyEx::Path(_, args, _) => {
+                        for a in args {
+                            out.push(a);
+                            subs(a, out);
+                        }
+                    }
+                    TyEx::Opt(i, _) => {
+                        out.push(i);
+                        subs(i, out);
+                    }
+                    TyEx::Anon(fs, _) => {
+                        for (_, f) in fs {
+                            out.push(f);
+                            subs(f, out);
+                        }
+                    }
+                    _ => {}
+                }
+            }
+            subs(t, &mut inner);
+            for i in inner {
+                if matches!(i, TyEx::Never(_)) {
+                    continue;
+                }
+                let sp = i.sp();
+                let mut whole = self.text(t.sp()).to_string();
+                whole.replace_range(sp.s - t.sp().s..sp.e - t.sp().s, "!");
+                self.push(kind, format!("{what}: `{}` -> `{whole}`", self.text(t.sp())), vec![(sp.s, sp.e, "!".into())]);
+            }
         }
     }
 
@@ -1212,7 +1445,7 @@ impl<'a> Gen<'a> {
 
     #[allow(clippy::too_many_arguments)]
     fn e1(&mut self, req: &Cl, vars: &[(String, T)], r: Role, sp: Sp, src: &str, role_name: &str) {
-        if *req == Cl::Any {
+        if *req == Cl::Any || req.exact() == Some(&T::Never) {
             return;
         }
         let w = &self.an.world;
